@@ -158,7 +158,10 @@ class OperatorRun:
         self.report.functions.append(fn_info(self.world, f))
         p.pc.extend(cfg.get('assume', []))
         eng.prune_hyps = list(cfg.get('assume', []))
-        res = eng.call(p, f, list(cfg.get('args', [])), dict(cfg.get('kws', {})))
+        if hasattr(c, 'make_operator'):
+            res = c.make_operator(eng, p, f, cfg)
+        else:
+            res = eng.call(p, f, list(cfg.get('args', [])), dict(cfg.get('kws', {})))
         built = []
         for q, op in res:
             if q.exc is not None:
@@ -232,15 +235,18 @@ class OperatorRun:
             eng.where = bwhere + '/Probe'
             eng.base_hyps = list(pb.pc); eng.prune_hyps = list(pb.pc)
             ev = EventV('Probe', self.world.event_fields['Probe'], {'topology': topo})
-            res = eng.call(pp, on_next, [ev], {})
-            self.report.paths += len(res)
-            if len(res) != 1:
-                raise Unsupported('Probe case forks')
-            pprobe = res[0][0]
-            states = list(pprobe.ghost.get('states', []))
-            ctx.states = states
-            for name, goal in c.ensures_probe(ctx, pprobe):
-                self.add_ob(eng, f'{bwhere}/Probe/ensures.{name}', pprobe.pc, goal, pprobe)
+            if getattr(c, 'has_probe', True):
+                res = eng.call(pp, on_next, [ev], {})
+                self.report.paths += len(res)
+                if len(res) != 1:
+                    raise Unsupported('Probe case forks')
+                pprobe = res[0][0]
+                states = list(pprobe.ghost.get('states', []))
+                ctx.states = states
+                for name, goal in c.ensures_probe(ctx, pprobe):
+                    self.add_ob(eng, f'{bwhere}/Probe/ensures.{name}', pprobe.pc, goal, pprobe)
+            else:
+                pprobe = pp; states = []
             self.report.obligations.extend(eng.obligations); eng.obligations = []
             # --- the event cases
             for case in getattr(c, 'cases', EVENT_CASES):
@@ -296,11 +302,17 @@ class OperatorRun:
         if hasattr(c, 'prestate'):
             c.prestate(ctx, q)
         ctx.k = Const('k', Key); ctx.x = Const('x', Val); ctx.err = Const('err', Val)
+        import itertools as _it
+        ctx.oid_start = next(eng.oid) + 1000; eng.oid = _it.count(ctx.oid_start)
         F = self.world.event_fields
         if case == 'Create': ev = EventV('Create', F['Create'], {'key': SKey(ctx.k), 'store': store})
         elif case == 'Next': ev = EventV('Next', F['Next'], {'key': SKey(ctx.k), 'item': self.item_value(ctx), 'store': store})
         elif case == 'Completed': ev = EventV('Completed', F['Completed'], {'key': SKey(ctx.k), 'store': store})
         elif case == 'Error': ev = EventV('Error', F['Error'], {'key': SKey(ctx.k), 'error': SVal(ctx.err), 'store': store})
+        elif case == 'Item':
+            ev = self.item_value(ctx)
+        elif case == 'Probe':
+            ev = EventV('Probe', F['Probe'], {'topology': Host('topology', name='topology2')})
         else:
             ev = Host('foreign', name='foreign_item'); ctx.foreign = ev
         req = list(c.requires(ctx))
@@ -333,7 +345,8 @@ class OperatorRun:
                     continue
             for name, goal in c.ensures(ctx, qq):
                 self.add_ob(eng, f'{pw}/ensures.{name}', qq.pc, goal, qq)
-            self.add_ob(eng, f'{pw}/ensures.store_forwarded', qq.pc, ctx.stores_forwarded(qq), qq)
+            if getattr(c, 'check_store_forwarding', True):
+                self.add_ob(eng, f'{pw}/ensures.store_forwarded', qq.pc, ctx.stores_forwarded(qq), qq)
         for ob in eng.obligations:
             ob.hyps = list(eng.base_hyps) + ob.hyps
         self.report.obligations.extend(eng.obligations)
@@ -363,7 +376,8 @@ class OperatorRun:
         for pi, (qq, _) in enumerate(res):
             pw = f'{bwhere}/{hname}/path{pi}'
             if qq.exc is not None:
-                self.add_ob(eng, f'{pw}/no_exception_escapes', qq.pc, BoolVal(False), qq, 'safety'); continue
+                okx = getattr(c, 'terminal_may_raise', False) and isinstance(qq.exc, ExcV) and qq.exc.origin not in (None, 'raise', 'constructed')
+                self.add_ob(eng, f'{pw}/no_exception_escapes', qq.pc, BoolVal(bool(okx)), qq, 'safety'); continue
             if spec is not None:
                 goals = spec(ctx, qq, hname)
             else:
